@@ -85,6 +85,11 @@ AwaitYield == {"export const s = async () => <C>{await f()}</C>;", "export funct
 TsHead == "import { defineComponent, type SetupContext } from 'vue';\n"
 TsForms == {
   "export const s = <T,>(x: T): any => <C>{f(x)}</C>;", "export const s = async <T,>(x: T): Promise<any> => <C>{f(x)}</C>;",
+  \* JSX in places the resolveType machinery copies code from (parameter defaults) or walks over (options, setup body)
+  "export const C = defineComponent((props: { icon?: any } = { icon: <i class=\"star\"/> }) => () => null);",
+  "export const C = defineComponent((props: { icon?: any, n?: number } = withIcon(<><i/></>)) => () => null);",
+  "export const C = defineComponent((props: { icon?: any } = { get icon() { return <b/> } }) => () => <div>{props.icon}</div>, { components: { K: <k/> } });",
+  "export const C = defineComponent((props: { a?: string }, ctx: SetupContext<{ (e: 'x'): void }>) => () => <C onX={() => <i/>}/>);",
   "type P = P; export const C = defineComponent((props: P) => () => null);",
   "type P = Q; type Q = P; export const C = defineComponent((props: P) => () => null);",
   "type P = { a: string } & P; export const C = defineComponent((props: P) => () => null);",
